@@ -1,4 +1,5 @@
 import NrDaemon.Lemmas.Proc
+import NrDaemon.Lemmas.Lifecycle
 /-!
   C03 — application lifecycle follows the collector's verdicts.
   The status classification (`Gen.Status.*`) is regenerated from `collector/client.go` on every run.
@@ -145,3 +146,50 @@ theorem C03_inactive_dropped (s : PState) (r : String) (run : RunM) (app : AppM)
       have h2 := List.mem_of_find?_eq_some hf
       simp only [List.mem_filter] at h2
       simp_all
+
+
+/-! ## Invariants over all histories of the processor loop (`Lemmas/Lifecycle.lean`) -/
+
+theorem runEvents_lifeInv (s : PState) (es : List PEvent) (h : LifeInv s) : LifeInv (s.runEvents es) := by
+  induction es generalizing s with
+  | nil => exact h
+  | cons e es ih => exact ih (s.step e) (step_lifeInv s e h)
+
+theorem lifeInv_empty : LifeInv ({} : PState) := by
+  constructor <;> intro r <;> simp [runApp, getRun]
+
+/-- **C03 (connected means: exactly one run, held; all histories).**  In every state reachable by any sequence of agent
+queries, transactions, harvest triggers, replies to harvest / preconnect / connect requests (any outcome, any order, any
+number in flight, stale ones included) and clock advances: every run the daemon holds belongs to an application in the
+connected state, and no application has two runs. -/
+theorem C03_runs_belong_to_connected (es : List PEvent) :
+    let s := ({} : PState).runEvents es
+    (∀ r h, runApp s r = some h → appState s h = some .connected) ∧
+    (∀ r1 r2 h, runApp s r1 = some h → runApp s r2 = some h → r1 = r2) :=
+  let h := runEvents_lifeInv {} es lifeInv_empty
+  ⟨h.runConnected, h.oneRun⟩
+
+/-- **C03 (a 410 or an invalid license is permanent; all continuations).**  From any reachable state in which an
+application is disconnected or has an invalid license, whatever happens afterwards — agent queries, late results of
+connect attempts that were still in flight (successes included), replies to harvest requests of any run with any verdict,
+triggers, time — its state never changes again. -/
+theorem C03_terminal_permanent (es es' : List PEvent) (k : String)
+    (ht : isTerminal (appState (({} : PState).runEvents es) k) = true) :
+    appState ((({} : PState).runEvents es).runEvents es') k = appState (({} : PState).runEvents es) k := by
+  have hinv := runEvents_lifeInv {} es lifeInv_empty
+  generalize ({} : PState).runEvents es = s at *
+  induction es' generalizing s with
+  | nil => rfl
+  | cons e es' ih =>
+    have h1 := step_terminal s e hinv k ht
+    have := ih (s.step e) (by rw [h1]; exact ht) (step_lifeInv s e hinv)
+    simp only [PState.runEvents, List.foldl_cons] at this ⊢
+    rw [this, h1]
+
+/-- … and no connect is ever attempted for it again, and agents are told its state -/
+theorem C03_terminal_no_connect (s : PState) (k : String) (app : AppM) (ha : getApp s k = some app)
+    (ht : app.state = .disconnected ∨ app.state = .invalidLicense) :
+    (considerConnect s k).2 = [] := by
+  unfold considerConnect
+  rw [ha]
+  rcases ht with h | h <;> simp [h]
